@@ -456,6 +456,7 @@ def check_property(prop, tier='quick'):
             'rewrites_applied': rewrites, 'manual_rewrites': manual, 'outlined': outlined,
             'vacuity_guards_failed_as_expected': vac_expected,
             'hints_dropped_anchor_lost': [h for ur in results if not ur.error for h in ur.u.hints_dropped],
+            'pinned_assumed_functions': sorted(set(x for ur in results if not ur.error for x in getattr(ur.u, 'pinned', []))),
             'statement_clauses_covered': spec.get('covered', []),
             'statement_clauses_not_covered': spec.get('not_covered', []),
             'bounded': extra.get('kani', {}).get('bounded', []) if extra else [],
